@@ -1,31 +1,34 @@
 #!/bin/bash
-# Runs the checks against every seeded property-breaking change under /verif/seeded/<id>/:
-# applies patch.diff to /repo, runs the quick check of the property it breaks (meta.json
-# "property"), expects exit 1 + a VIOLATION line, and reverts /repo straight afterwards.
-# Usage: scripts/seeded.sh [id ...]     (default: all)
-# Nothing is ever committed to /repo. Output table: id property result(exit) first-violation
+# Runs the checks against every seeded property-breaking change under /verif/seeded/<id>/.
+# Each patch.diff is applied to a scratch git worktree of /repo's HEAD (outside /repo and /verif,
+# removed afterwards; /repo itself is never modified), the quick check of the property it breaks
+# (meta.json "property") is run on that tree with --repo, and exit 1 + a VIOLATION line is expected.
+# Usage: scripts/seeded.sh [id ...]     (default: all)      env SEEDED_ALL=1: run ALL checks per seed
+# Output: id property DETECTED|MISSED first-violation
 cd "$(dirname "$0")/.." || exit 2
 V=$(pwd)
-if ! git -C /repo diff --quiet || ! git -C /repo diff --cached --quiet; then
-  echo "refusing: /repo has uncommitted changes" >&2; exit 2
-fi
+W=$(mktemp -d /tmp/seedrun.XXXXXX)
+git -C /repo worktree add --detach "$W/repo" HEAD >/dev/null 2>&1 || { echo "worktree failed"; exit 2; }
+trap 'git -C /repo worktree remove --force "$W/repo" >/dev/null 2>&1; rm -rf "$W"' EXIT
 ids=("$@"); [ ${#ids[@]} -eq 0 ] && ids=($(ls seeded))
 miss=0
 for id in "${ids[@]}"; do
   d=seeded/$id
   [ -f $d/patch.diff ] || continue
   prop=$(python3 -c "import json;print(json.load(open('$d/meta.json'))['property'])")
-  if ! git -C /repo apply --check $V/$d/patch.diff 2>/dev/null; then
+  git -C "$W/repo" checkout -q -- . ; git -C "$W/repo" clean -fdq
+  if ! git -C "$W/repo" apply "$V/$d/patch.diff" 2>/dev/null; then
     echo "$id $prop PATCH-DOES-NOT-APPLY"; miss=$((miss+1)); continue
   fi
-  git -C /repo apply $V/$d/patch.diff
-  out=$(VERIF_DIR=$V bin/mmverify check --property $prop --tier quick --no-evidence 2>&1); rc=$?
-  git -C /repo checkout -- . ; git -C /repo clean -fdq -- internal cmd 2>/dev/null
+  out=$(VERIF_DIR=$V bin/mmverify check --property $prop --tier quick --no-evidence --repo "$W/repo" 2>&1); rc=$?
   first=$(echo "$out" | grep -m1 '^violation:' | cut -c1-220)
   if [ $rc -eq 1 ] && echo "$out" | grep -q '^VIOLATION property='; then
     echo "$id $prop DETECTED $first"
   else
     echo "$id $prop MISSED(exit=$rc) $(echo "$out" | tail -1 | cut -c1-160)"; miss=$((miss+1))
+    if [ -n "${SEEDED_ALL:-}" ]; then
+      VERIF_DIR=$V bin/mmverify checkall --repo "$W/repo" 2>&1 | grep '^violation:' | cut -c1-200 | sed 's/^/    other-check: /'
+    fi
   fi
 done
 exit $([ $miss -eq 0 ] && echo 0 || echo 1)
